@@ -51,9 +51,9 @@ Proof.
   intros [C S M T]. unfold add_command. rewrite C. destruct acc as [t|]; simpl; constructor; simpl; auto.
 Qed.
 
-Lemma scan_plain : forall a o c,
+Lemma scan_plain v : forall a o c,
   forallb plain_att a = true ->
-  exists o', scan_atts false [] a (mkScan o [] [] [] c) = COk (mkScan o' [] [] [] (c ++ a)).
+  exists o', scan_atts v false [] a (mkScan o [] [] [] c) = COk (mkScan o' [] [] [] (c ++ a)).
 Proof.
   induction a as [|[att value] r IH]; intros o c H; simpl in H.
   - exists o. simpl. now rewrite app_nil_r.
@@ -74,13 +74,16 @@ Lemma parse_start_plain v tag a acc s :
              PInv (Some (acc_text acc ++ tag_as_text tag a)) s' /\
              cs_stack s' = mkTag tag None None :: cs_stack s.
 Proof.
-  intros Ht Ha I. destruct (scan_plain a [] [] Ha) as [o' E].
+  intros Ht Ha I. destruct (scan_plain v a [] [] Ha) as [o' E].
   assert (F : parse_start_tag v tag a s = COk (add_tag tag a [] None None s)).
   { unfold parse_start_tag. unfold plain_tag in Ht.
+    assert (Hd : forall sc0, sc_args sc0 = [] -> (v_dup v && has_arg OP_CONTENT sc0 && has_arg OP_REPLACE sc0) = false).
+    { intros sc0 H0. unfold has_arg. rewrite H0. simpl. now rewrite !andb_false_r. }
     destruct (find_colon tag) as [[|k]|]; cbv zeta.
-    - rewrite E. reflexivity.
-    - apply negb_true_iff, orb_false_iff in Ht. destruct Ht as [H1 H2]. rewrite H1, H2. rewrite E. reflexivity.
-    - rewrite E. reflexivity. }
+    - rewrite E. rewrite Hd by reflexivity. reflexivity.
+    - apply negb_true_iff, orb_false_iff in Ht. destruct Ht as [H1 H2]. rewrite H1, H2. rewrite E.
+      rewrite Hd by reflexivity. reflexivity.
+    - rewrite E. rewrite Hd by reflexivity. reflexivity. }
   rewrite F.
   eexists. split; [reflexivity|]. split.
   - unfold add_tag. destruct (add_output_inv acc (push_tag (mkTag tag None None) s) (tag_as_text tag a)) as [C S M T].
